@@ -57,7 +57,7 @@ def main():
         elif a.all_props:
             props = cl
         else:
-            props = [p for p in cl if p in index.get(s, [s.split("-")[-2] if s.startswith("w2-") else s.split("-")[0]])]
+            props = [p for p in cl if p in index.get(s, [s.split("-")[-2] if re.match(r"w\d+-", s) else s.split("-")[0]])]
         if props:
             jobs.append((s, props))
     with ThreadPoolExecutor(max_workers=a.j) as ex:
